@@ -194,6 +194,10 @@ func (fr *Frame) dryRun(li *loopInfo, st *BState, phis []*ssa.Phi) *loopDry {
 		fr.edges[k] = v
 	}
 	savedRets := fr.rets
+	savedOrd := map[string]int{}
+	for k, v := range fr.ord {
+		savedOrd[k] = v
+	}
 	savedNotes := e.notes
 	e.notes = map[string]bool{}
 	e.dry++
@@ -260,12 +264,28 @@ func (fr *Frame) dryRun(li *loopInfo, st *BState, phis []*ssa.Phi) *loopDry {
 	e.notes = savedNotes
 	fr.edges = savedEdges
 	fr.rets = savedRets
+	fr.ord = savedOrd
 	return d
 }
 
 func (fr *Frame) backEdge(from, to *ssa.BasicBlock, reach string, h *Heap) {
 	e := fr.e
 	li := fr.loops[to]
+	if li.backOrd == nil {
+		// ordinals by block index order of the back-edge sources
+		li.backOrd = map[int]int{}
+		var srcs []int
+		for _, p := range to.Preds {
+			if to.Dominates(p) {
+				srcs = append(srcs, p.Index)
+			}
+		}
+		sort.Ints(srcs)
+		for k, s := range srcs {
+			li.backOrd[s] = k + 1
+		}
+	}
+	bo := li.backOrd[from.Index]
 	if len(fr.dryStack) > 0 && fr.dryStack[len(fr.dryStack)-1].li == li {
 		d := fr.dryStack[len(fr.dryStack)-1]
 		for k, v := range h.dirty {
@@ -284,7 +304,7 @@ func (fr *Frame) backEdge(from, to *ssa.BasicBlock, reach string, h *Heap) {
 	if li.spec == nil {
 		label := fmt.Sprintf("%sloop%d", fr.callpath, li.ord)
 		for _, fi := range li.frameInv {
-			e.oblige(fmt.Sprintf("%s#%s:frame-keep:%s@b%d", e.topKey(), label, fi.name, from.Index), "frame", reach, e.frameGoal(e.harr(h, fi.name, fi.sort), fi.name, fi.refs), fr.pos(to.Instrs[0].Pos()), "loop frame preserved: "+fi.name+" unchanged outside the modifies clause", nil)
+			e.oblige(fmt.Sprintf("%s#%s:frame-keep:%s@e%d", e.topKey(), label, fi.name, bo), "frame", reach, e.frameGoal(e.harr(h, fi.name, fi.sort), fi.name, fi.refs), fr.pos(to.Instrs[0].Pos()), "loop frame preserved: "+fi.name+" unchanged outside the modifies clause", nil)
 		}
 		return
 	}
@@ -299,16 +319,17 @@ func (fr *Frame) backEdge(from, to *ssa.BasicBlock, reach string, h *Heap) {
 	}
 	label := fmt.Sprintf("%sloop%d", fr.callpath, li.ord)
 	for _, fi := range li.frameInv {
-		e.oblige(fmt.Sprintf("%s#%s:frame-keep:%s@b%d", e.topKey(), label, fi.name, from.Index), "frame", reach, e.frameGoal(e.harr(h, fi.name, fi.sort), fi.name, fi.refs), fr.pos(to.Instrs[0].Pos()), "loop frame preserved: "+fi.name+" unchanged outside the modifies clause", nil)
+		e.oblige(fmt.Sprintf("%s#%s:frame-keep:%s@e%d", e.topKey(), label, fi.name, bo), "frame", reach, e.frameGoal(e.harr(h, fi.name, fi.sort), fi.name, fi.refs), fr.pos(to.Instrs[0].Pos()), "loop frame preserved: "+fi.name+" unchanged outside the modifies clause", nil)
 	}
 	for i, c := range li.spec.Invariants {
 		ctx := fr.specCtx(h, to)
 		ctx.override = over
 		parts := ctx.evalSplit(c.Expr)
 		for j, g := range parts {
-			o := e.oblige(fmt.Sprintf("%s#%s:inv-keep:%d/%d@b%d", e.topKey(), label, i+1, j+1, from.Index), "inv-keep", reach, g, fr.pos(to.Instrs[0].Pos()), "loop invariant preserved: "+c.Src, c.Tags)
+			o := e.oblige(fmt.Sprintf("%s#%s:inv-keep:%d/%d@e%d", e.topKey(), label, i+1, j+1, bo), "inv-keep", reach, g, fr.pos(to.Instrs[0].Pos()), "loop invariant preserved: "+c.Src, c.Tags)
+			o.Site = ctx
 			if len(parts) > 1 {
-				o.Group = fmt.Sprintf("%s#%s:inv-keep:%d@b%d", e.topKey(), label, i+1, from.Index)
+				o.Group = fmt.Sprintf("%s#%s:inv-keep:%d@e%d", e.topKey(), label, i+1, bo)
 			}
 		}
 	}
@@ -396,6 +417,7 @@ func (fr *Frame) instr(in ssa.Instruction, idx int, st *BState) {
 		v := fr.val(x.Val)
 		switch a.K {
 		case kAddr:
+			fr.lockAddr(a.A, true, x.Pos(), st)
 			e.storeAt(st.heap, a.A, v)
 		case kScalar:
 			// *p = structValue
@@ -446,8 +468,7 @@ func (fr *Frame) instr(in ssa.Instruction, idx int, st *BState) {
 			}
 		}
 		// boxed non-pointer: opaque
-		o := e.fresh(fr.vname(x), "Int")
-		e.assume("true", and(sx("<", "0", o), sx("<=", o, st.heap.alloc)))
+		o := e.newRef(st.heap, fr.vname(x)+"#box")
 		fr.set(x, scalar(x.Type(), o))
 	case *ssa.MakeClosure:
 		var bs []Val
@@ -599,6 +620,7 @@ func (fr *Frame) unop(x *ssa.UnOp, st *BState) {
 		var r Val
 		switch v.K {
 		case kAddr:
+			fr.lockAddr(v.A, false, x.Pos(), st)
 			r = e.loadAt(st.heap, v.A)
 		case kScalar:
 			nt, _ := namedStruct(x.X.Type())
@@ -621,8 +643,8 @@ func (fr *Frame) unop(x *ssa.UnOp, st *BState) {
 	case token.NOT:
 		fr.set(x, scalar(x.Type(), not(v.S)))
 	case token.SUB:
-		if isFloat(x.Type()) {
-			fr.set(x, scalar(x.Type(), sx("-", v.S)))
+		if v.K == kRat {
+			fr.set(x, Val{T: x.Type(), K: kRat, Num: sx("-", v.Num), Den: v.Den, Sp: v.Sp, Inf: v.NInf, NInf: v.Inf})
 		} else {
 			fr.set(x, scalar(x.Type(), sx("-", v.S)))
 		}
@@ -654,6 +676,9 @@ func (fr *Frame) binop(x *ssa.BinOp, st *BState) Val {
 	e := fr.e
 	a, b := fr.val(x.X), fr.val(x.Y)
 	t := x.Type()
+	if a.K == kRat && b.K == kRat {
+		return fr.ratOp(x, a, b, st)
+	}
 	switch x.Op {
 	case token.EQL, token.NEQ:
 		var r string
@@ -697,10 +722,6 @@ func (fr *Frame) binop(x *ssa.BinOp, st *BState) Val {
 	case token.MUL:
 		return scalar(t, sx("*", a.S, b.S))
 	case token.QUO:
-		if isFloat(t) {
-			fr.safety(st, "fdiv", not(eq(b.S, "0.0")), x.Pos(), "floating-point division by zero (NaN/Inf)")
-			return scalar(t, sx("/", a.S, b.S))
-		}
 		fr.safety(st, "div", not(eq(b.S, "0")), x.Pos(), "integer division by zero")
 		if isUnsigned(t) {
 			return scalar(t, sx("div", a.S, b.S))
@@ -744,13 +765,22 @@ func (fr *Frame) convert(x *ssa.Convert, st *BState) Val {
 			fr.e.note("A4: integer conversions treated as value-preserving (machine arithmetic as mathematical)")
 			return scalar(x.Type(), v.S)
 		case fb.Info()&types.IsInteger != 0 && tb.Info()&types.IsFloat != 0:
-			fr.e.note("A6: int->float64 conversion treated as exact")
-			return scalar(x.Type(), sx("to_real", v.S))
+			fr.e.note("A6: float64 values are exact rationals (int->float64 conversion exact, no rounding)")
+			return Val{T: x.Type(), K: kRat, Num: v.S, Den: "1"}
 		case fb.Info()&types.IsFloat != 0 && tb.Info()&types.IsInteger != 0:
-			fr.e.note("A6: float64->int conversion treated as exact truncation")
-			return scalar(x.Type(), ite(sx(">=", v.S, "0.0"), sx("to_int", v.S), sx("-", sx("to_int", sx("-", v.S)))))
+			fr.e.note("A6: float64 values are exact rationals (float64->int is exact truncation)")
+			res := v.Num
+			if v.Den != "1" {
+				res = truncDiv(v.Num, v.Den)
+			}
+			if spOf(v) != "false" || infOf(v) != "false" || ninfOf(v) != "false" {
+				arb := fr.e.fresh(fr.vname(x)+"#nan2int", "Int")
+				res = ite(or(spOf(v), infOf(v), ninfOf(v)), arb, res)
+			}
+			return scalar(x.Type(), fr.e.define(fr.vname(x), "Int", res))
 		case fb.Info()&types.IsFloat != 0 && tb.Info()&types.IsFloat != 0:
-			return scalar(x.Type(), v.S)
+			v.T = x.Type()
+			return v
 		case fb.Info()&types.IsString != 0 && tb.Info()&types.IsString != 0:
 			return scalar(x.Type(), v.S)
 		}
@@ -861,6 +891,7 @@ func (fr *Frame) lookup(x *ssa.Lookup, st *BState) Val {
 		okT = or(oks...)
 	} else {
 		h := st.heap
+		fr.lockAccess(mapDom(mt), false, x.Pos(), st)
 		D := sel(e.harr(h, mapDom(mt), arrSort('D', "")), m.S)
 		okT = e.define(fr.vname(x)+"#ok", "Bool", sel(D, k.S))
 		cs := flatten(mt.Elem())
@@ -885,6 +916,7 @@ func (fr *Frame) mapUpdate(x *ssa.MapUpdate, st *BState) {
 	v := fr.val(x.Value)
 	mt := x.Map.Type().Underlying().(*types.Map)
 	fr.safety(st, "nilmap", not(eq(m.S, "0")), x.Pos(), "assignment to entry in nil map")
+	fr.lockAccess(mapDom(mt), true, x.Pos(), st)
 	e.mapStore(st.heap, mt, m.S, k.S, v)
 }
 
@@ -924,6 +956,7 @@ func (fr *Frame) next(x *ssa.Next, st *BState) Val {
 	}
 	h := st.heap
 	mt := it.It.MT
+	fr.lockAccess(mapDom(mt), false, x.Pos(), st)
 	V := e.harr(h, it.It.Visited, "(Array Int Bool)")
 	D := e.define(fr.vname(x)+"#dom", "(Array Int Bool)", sel(e.harr(h, mapDom(mt), arrSort('D', "")), it.It.MapRef))
 	// visited ⊆ dom
@@ -979,4 +1012,92 @@ func (e *Enc) frameFact(H, name string, refs []string) string {
 	}
 	ini := e.declare(name+"@0", e.hsort(name))
 	return fmt.Sprintf("(forall ((r Int)) (! (=> %s (= (select %s r) (select %s r))) :pattern ((select %s r))))", and(append([]string{sx("<=", "r", q("alloc@0"))}, excl...)...), H, ini, H)
+}
+
+// ratOp: arithmetic and comparison on float64 values modelled as exact rationals num/den with den > 0,
+// plus a "special" flag for NaN/Inf (division by zero). A special value may flow into int conversions
+// (arbitrary result) but comparing one is an obligation failure (safe:fcmp).
+func infOf(v Val) string {
+	if v.Inf == "" {
+		return "false"
+	}
+	return v.Inf
+}
+
+func ninfOf(v Val) string {
+	if v.NInf == "" {
+		return "false"
+	}
+	return v.NInf
+}
+
+func spOf(v Val) string {
+	if v.Sp == "" {
+		return "false"
+	}
+	return v.Sp
+}
+
+func (fr *Frame) ratOp(x *ssa.BinOp, a, b Val, st *BState) Val {
+	t := x.Type()
+	mul := func(p, q string) string {
+		if p == "1" {
+			return q
+		}
+		if q == "1" {
+			return p
+		}
+		return sx("*", p, q)
+	}
+	l, r := mul(a.Num, b.Den), mul(b.Num, a.Den) // a ? b  <=>  l ? r   (dens positive)
+	sp := or(spOf(a), spOf(b))
+	fa := and(not(infOf(a)), not(ninfOf(a)))
+	fb := and(not(infOf(b)), not(ninfOf(b)))
+	fin := and(fa, fb)
+	anyInf := or(infOf(a), ninfOf(a), infOf(b), ninfOf(b))
+	// IEEE semantics: ordered comparisons with NaN are false, != is true; +-Inf compare as expected
+	lt := and(not(sp), or(and(ninfOf(a), not(ninfOf(b))), and(infOf(b), not(infOf(a))), and(fin, sx("<", l, r))))
+	le := and(not(sp), or(ninfOf(a), infOf(b), and(fin, sx("<=", l, r))))
+	gt := and(not(sp), or(and(ninfOf(b), not(ninfOf(a))), and(infOf(a), not(infOf(b))), and(fin, sx(">", l, r))))
+	ge := and(not(sp), or(ninfOf(b), infOf(a), and(fin, sx(">=", l, r))))
+	eqt := and(not(sp), or(and(infOf(a), infOf(b)), and(ninfOf(a), ninfOf(b)), and(fin, eq(l, r))))
+	arith := func() {
+		if anyInf != "false" {
+			fr.safety(st, "finf", not(anyInf), x.Pos(), "float64 arithmetic on an infinite value (not modelled)")
+		}
+	}
+	switch x.Op {
+	case token.EQL:
+		return scalar(t, eqt)
+	case token.NEQ:
+		return scalar(t, not(eqt))
+	case token.LSS:
+		return scalar(t, lt)
+	case token.LEQ:
+		return scalar(t, le)
+	case token.GTR:
+		return scalar(t, gt)
+	case token.GEQ:
+		return scalar(t, ge)
+	case token.ADD:
+		arith()
+		return Val{T: t, K: kRat, Num: sx("+", l, r), Den: mul(a.Den, b.Den), Sp: sp}
+	case token.SUB:
+		arith()
+		return Val{T: t, K: kRat, Num: sx("-", l, r), Den: mul(a.Den, b.Den), Sp: sp}
+	case token.MUL:
+		arith()
+		return Val{T: t, K: kRat, Num: mul(a.Num, b.Num), Den: mul(a.Den, b.Den), Sp: sp}
+	case token.QUO:
+		arith()
+		pos := sx(">", b.Num, "0")
+		fr.e.note("A6: float64 division by zero follows IEEE (0/0 NaN, x/0 +-Inf; ordered comparisons with NaN false; int(NaN/Inf) arbitrary); negative divisors are reported as safe:fdiv")
+		fr.safety(st, "fdiv", or(sx(">=", b.Num, "0"), spOf(b)), x.Pos(), "float64 division by a negative value (not modelled)")
+		zero := eq(b.Num, "0")
+		return Val{T: t, K: kRat, Num: mul(a.Num, b.Den), Den: ite(pos, mul(a.Den, b.Num), "1"),
+			Sp:   fr.e.define(fr.vname(x)+"#nan", "Bool", or(sp, and(zero, eq(a.Num, "0")))),
+			Inf:  fr.e.define(fr.vname(x)+"#pinf", "Bool", and(zero, sx(">", a.Num, "0"))),
+			NInf: fr.e.define(fr.vname(x)+"#ninf", "Bool", and(zero, sx("<", a.Num, "0")))}
+	}
+	panic(unsupported("float operator %s", x.Op))
 }
